@@ -112,6 +112,7 @@ void add_host(const char* name, const char* ipv4);      // name table for getadd
 void set_resolve_delay(uint64_t ns);                    // getaddrinfo takes this long (simulated)
 void set_blackhole(const char* ipv4, int port, bool on);// SYNs to this target are never answered
 void set_refuse_delay(uint64_t ns);
+void set_connect_delay(const char* ipv4, int port, uint64_t ns); // SYN-ACK delay for one destination (port 0 = any)
 // tap access: bytes sent by the endpoint `fd` so far (valid while the fd or its peer is open; kept after close)
 struct ConnInfo { int id; int fd_a, fd_b; std::string a_addr, b_addr; std::string a_sent, b_sent; bool a_closed, b_closed; };
 std::vector<ConnInfo> connections();  // all TCP connections ever established in this run (tap must be on for *_sent)
